@@ -175,11 +175,13 @@ pub struct SzxOpts {
     /// with `unknown_chunks`: one of the unknown chunks is larger than any chunk the format defines
     /// for memory (an embedded tape or disk image)
     pub big_unknown: bool,
+    /// ZXSTZF_FSET (v1.5): the last instruction executed changed the flags
+    pub fset: bool,
 }
 
 impl Default for SzxOpts {
     fn default() -> Self {
-        SzxOpts { compressed: false, order: 0, unknown_chunks: false, creator: true, halted: false, minor: 4, with_ay: true, with_keyb: true, with_mouse: true, big_unknown: false }
+        SzxOpts { compressed: false, order: 0, unknown_chunks: false, creator: true, halted: false, minor: 4, with_ay: true, with_keyb: true, with_mouse: true, big_unknown: false, fset: false }
     }
 }
 
@@ -209,7 +211,7 @@ pub fn szx(s: &MState, o: &SzxOpts) -> Vec<u8> {
     z.push(r.im);
     z.extend_from_slice(&s.cycles.to_le_bytes());
     z.push(0);
-    z.push((s.eilast as u8) | ((o.halted as u8) << 1));
+    z.push((s.eilast as u8) | ((o.halted as u8) << 1) | ((o.fset as u8) << 2));
     w16(&mut z, r.memptr);
     let z80r = chunk(b"Z80R", &z);
     // SPCR
